@@ -16,6 +16,12 @@ class Facts:
     def __init__(self, path):
         with open(path) as f:
             d = json.load(f)
+        # renamed / moved private items are mapped back to the names they have on the pinned tree (analyzer/rolemap.py)
+        from . import rolemap
+        try:
+            d, self.renames = rolemap.normalise(d)
+        except Exception as e:          # never let the normalisation layer hide the facts themselves
+            self.renames = {'!error': '%s: %s' % (type(e).__name__, e)}
         self.path = path
         self.config = d.get('config')
         self.crate = d.get('crate')
